@@ -8,7 +8,8 @@ sys.path.insert(0, '/verif/tools')
 import vlib
 with vlib.Lock():
     meta = vlib.regenerate()
-    print('py2v:', len(meta['functions']), 'functions;', 'errors:', meta['errors'])
+    print("py2v:", len(meta["functions"]), "functions;", "errors:", meta["errors"])
+    if meta["errors"]: sys.exit(1)
     vlib.ensure_makefile()
     rc, out, dt = vlib.make([], timeout=3000)
     print(out[-3000:])
